@@ -178,7 +178,14 @@ def run(ctx):
                     doc.fragments["SubRoot"] = opgen.OFragment("SubRoot", case.ir.subscription, [root_field])
                     op.selection = [opgen.OSpread("SubRoot")]
                 elif shape == "repeated":
-                    op.selection = [root_field, opgen.OInline(None, [root_field])]
+                    other = root_field
+                    if root_field.selection is not None:
+                        # the second occurrence selects other things below the same response key
+                        fdef = case.ir.types[case.ir.subscription].field(root_field.name)
+                        other = opgen.OField(root_field.name, root_field.parent, root_field.alias, root_field.args, [],
+                                             g.selection_set(S.unwrap(fdef.type), 1))
+                        ctx.count("root-field-repeated-with-other-sub-selection")
+                    op.selection = [root_field, opgen.OInline(None, [other])]
                 elif shape == "nested-spreads":
                     doc.fragments["SubInner"] = opgen.OFragment("SubInner", case.ir.subscription, [root_field])
                     doc.fragments["SubRoot"] = opgen.OFragment("SubRoot", case.ir.subscription, [opgen.OSpread("SubInner")])
